@@ -37,14 +37,15 @@ type FuncCfg struct {
 //	kind sprintf fmt.Sprintf with a literal format of text and %s verbs on strings: concatenation
 //	kind const   a constant: `coq`
 type Intrinsic struct {
-	Kind string   `json:"kind"`
-	Coq  string   `json:"coq"`
-	Args []string `json:"args"` // Go types of the arguments (not the receiver); checked
-	Ret  []string `json:"ret"`  // Go types of the results
-	Type string   `json:"type"` // oracle: Coq type
-	On   string   `json:"on"`   // apply to this field of the receiver instead of the receiver
-	Clock int     `json:"clock"` // fn/mut: number of clock readings it takes as trailing arguments
-	Note string   `json:"note"` // meaning (printed in the header of the generated file)
+	Kind   string   `json:"kind"`
+	Coq    string   `json:"coq"`
+	Args   []string `json:"args"`   // Go types of the arguments (not the receiver); checked
+	Ret    []string `json:"ret"`    // Go types of the results
+	Type   string   `json:"type"`   // oracle: Coq type
+	On     string   `json:"on"`     // apply to this field of the receiver instead of the receiver
+	Clock  int      `json:"clock"`  // fn/mut: number of clock readings it takes as trailing arguments
+	NoRecv bool     `json:"norecv"` // the receiver is not passed (call of a function-valued field)
+	Note   string   `json:"note"`   // meaning (printed in the header of the generated file)
 }
 
 type Config struct {
